@@ -2,9 +2,13 @@
 # Sensitivity run: applies every seeded change under /verif/seeded to /repo in turn, runs the quick check
 # of the property it breaks (exit 1 + VIOLATION expected), and undoes it straight afterwards.
 # Usage: tools/run_seeded.sh [name-filter]
+# SEEDED_REPO=<git worktree of /repo> applies the changes there instead (the checks then run with VERIF_REPO set
+# to it, against a scratch copy of the simulator) and leaves /repo alone.
 set -u
 cd "$(dirname "$0")/.."
-if [ -n "$(git -C /repo status --porcelain --untracked-files=no)" ]; then echo "/repo has uncommitted changes, refusing"; exit 2; fi
+R="${SEEDED_REPO:-/repo}"
+if [ "$R" != /repo ]; then export VERIF_REPO="$R"; fi
+if [ -n "$(git -C "$R" status --porcelain --untracked-files=no)" ]; then echo "$R has uncommitted changes, refusing"; exit 2; fi
 pass=0; fail=0
 for d in seeded/*${1:-}*/ seeded/adversarial/*${1:-}*/; do
   [ -f "$d/meta.json" ] && [ -f "$d/patch.diff" ] || continue
@@ -13,12 +17,12 @@ for d in seeded/*${1:-}*/ seeded/adversarial/*${1:-}*/; do
   if [ "$name" = "C20-shared-decimal-context" ]; then echo "EXPECTED-MISS $name (unsynchronised memory inside FFI calls: outside the simulator's preemption points)"; continue; fi
   prop=$(python3 -c "import json,sys; print(json.load(open('$d/meta.json'))['property'])")
   patch=$(ls $d/patch_rebased*.diff 2>/dev/null | tail -1); [ -z "$patch" ] && patch=$d/patch.diff
-  if ! git -C /repo apply "$PWD/$patch" 2>/dev/null; then
-    if ! git -C /repo apply --3way "$PWD/$patch" >/dev/null 2>&1; then echo "SKIP  $name: patch does not apply to the current tree"; git -C /repo reset -q --hard HEAD; fail=$((fail+1)); continue; fi
-    git -C /repo reset -q   # keep the working tree changes, drop the index
+  if ! git -C "$R" apply "$PWD/$patch" 2>/dev/null; then
+    if ! git -C "$R" apply --3way "$PWD/$patch" >/dev/null 2>&1; then echo "SKIP  $name: patch does not apply to the current tree"; git -C "$R" reset -q --hard HEAD; fail=$((fail+1)); continue; fi
+    git -C "$R" reset -q   # keep the working tree changes, drop the index
   fi
   out=$(./check "$prop" quick --no-evidence 2>&1); code=$?
-  git -C /repo checkout -q -- . ; git -C /repo reset -q --hard HEAD
+  git -C "$R" checkout -q -- . ; git -C "$R" reset -q --hard HEAD
   rm -rf "replays/$prop"
   if [ $code -eq 1 ] && echo "$out" | grep -q "^VIOLATION property=$prop"; then
     echo "CAUGHT $name ($prop): $(echo "$out" | grep -m1 'rule=' | sed 's/^ *//' | cut -c1-160)"; pass=$((pass+1))
